@@ -184,6 +184,19 @@ CHECKS["C06"] = dict(
     note=NOTE_BASE + "Known finding K1-C06: a write whose newBLOBVector exceeds the 2048-character threshold of the server's receive buffer is lost.",
     technique="Coq proof (write effect and frame theorems over driver, router and client models) + system-level correspondence of the composed model with the real client/transport/router/driver stack",
     design="4/C06")
+CHECKS["C01"] = dict(
+    text="PARTIAL proof + system-level correspondence. Proved (System/Converge.v, Client/Update.v): every definition the driver publishes puts the "
+         "mirror's entry in the state 'shown' of the property as it then is, from any previous state (a_definition_brings_the_entry_in_sync, "
+         "what_the_client_then_shows: name, kind, group, label, state, enabled elements with labels and wire values); a disabled property's "
+         "delProperty removes it; an update from the in-sync state of a property that changed in state and values only leads to the in-sync state "
+         "(an_update_keeps_the_entry_in_sync); no message touches another entry; the handshake answer covers every property. REFUTED for BLOB "
+         "payloads (definition carries none: known finding K2). The composition over whole histories - that a connected client receives exactly "
+         "the published stream, through router, serializer, fragmented byte stream and framing, for generated definitions incl. inheritance - is "
+         "the system model (System/Model.v), VALIDATED by running the real stack and comparing every device state and every client view after "
+         "every operation, plus a model-free oracle (client view = device's visible state).",
+    note=NOTE_BASE + "Partial: the whole-history composition is validated by correspondence, not proved as one theorem. Known findings K2 (BLOB payload after a definition) and K1-C01 (messages above the 2048-character threshold).",
+    technique="Coq proof (message-level sync theorems, partial) + system-level correspondence of the composed model with the real driver/router/transport/client stack",
+    design="4/C01")
 PENDING = {}
 props = [json.loads(l) for l in open(os.path.join(V, "properties.jsonl"))]
 checks, na = [], []
